@@ -36,6 +36,30 @@ use serde::Deserialize;
 use std::cell::Cell;
 use std::fmt;
 
+// ------------------------------------------------------------------ heap blocks of the array's size
+// The crate's deserializer builds the array in place and owns no heap block.  If it ever does (a heap path for
+// large arrays), a block of exactly size_of::<GenericArray<T, N>>() bytes requested during a call must be gone
+// once the result has been dropped -- on every exit, the `?` exits included.
+struct Track;
+static TARGET: std::sync::atomic::AtomicUsize = std::sync::atomic::AtomicUsize::new(usize::MAX);
+static LIVE_TARGET: std::sync::atomic::AtomicIsize = std::sync::atomic::AtomicIsize::new(0);
+unsafe impl std::alloc::GlobalAlloc for Track {
+    unsafe fn alloc(&self, l: std::alloc::Layout) -> *mut u8 {
+        if l.size() == TARGET.load(std::sync::atomic::Ordering::Relaxed) {
+            LIVE_TARGET.fetch_add(1, std::sync::atomic::Ordering::Relaxed);
+        }
+        std::alloc::System.alloc(l)
+    }
+    unsafe fn dealloc(&self, p: *mut u8, l: std::alloc::Layout) {
+        if l.size() == TARGET.load(std::sync::atomic::Ordering::Relaxed) {
+            LIVE_TARGET.fetch_sub(1, std::sync::atomic::Ordering::Relaxed);
+        }
+        std::alloc::System.dealloc(p, l)
+    }
+}
+#[global_allocator]
+static GLOBAL: Track = Track;
+
 // ------------------------------------------------------------------ error type
 
 #[derive(Debug)]
@@ -569,6 +593,12 @@ fn run<T: El, N: ArrayLength>(c: &Parsed, orc: &mut Vec<String>) -> Vec<i128> {
     track::reset(1_000_000);
     let _ = zmade_take();
     let ctl = Ctl::default();
+    let arr_bytes = std::mem::size_of::<GenericArray<T, N>>();
+    let watch = c.fmt == 0 && arr_bytes >= 4096;
+    if watch {
+        LIVE_TARGET.store(0, std::sync::atomic::Ordering::Relaxed);
+        TARGET.store(arr_bytes, std::sync::atomic::Ordering::Relaxed);
+    }
     let res: Result<Result<GenericArray<T, N>, String>, String> = catch(|| match c.fmt {
         0 => GenericArray::<T, N>::deserialize(ScriptDe { sc: &c.sc, ctl: &ctl }).map_err(|e| e.to_string()),
         5 => {
@@ -579,6 +609,9 @@ fn run<T: El, N: ArrayLength>(c: &Parsed, orc: &mut Vec<String>) -> Vec<i128> {
         2 => bincode::deserialize::<GenericArray<T, N>>(&bin_bytes::<T>(items)).map_err(|e| e.to_string()),
         _ => serde_json::from_value::<GenericArray<T, N>>(value_of::<T>(items)).map_err(|e| e.to_string()),
     });
+    if watch {
+        TARGET.store(usize::MAX, std::sync::atomic::Ordering::Relaxed);
+    }
     let during = track::log_from(0);
     let polls = if c.fmt == 0 || c.fmt == 5 { ctl.calls.get() as i128 } else { -1 };
     let mut drops: Vec<i128> = track::drops_sorted(&during).iter().map(|x| *x as i128).collect();
@@ -632,6 +665,13 @@ fn run<T: El, N: ArrayLength>(c: &Parsed, orc: &mut Vec<String>) -> Vec<i128> {
             obs.push(polls);
             obs.push(drops.len() as i128);
             obs.extend(&drops);
+        }
+    }
+    if watch {
+        // the result (array or error) is gone by now: no block of the array's size may be left
+        let left = LIVE_TARGET.load(std::sync::atomic::Ordering::Relaxed);
+        if left > 0 {
+            orc.push(format!("{} heap block(s) of the array's size ({} bytes) requested during deserialize are still allocated after the result was dropped", left, arr_bytes));
         }
     }
     if c.fmt == 0 || c.fmt == 5 {
